@@ -93,12 +93,26 @@ HARNESSES = [
       covers=['same content, other signature', 'same seq and keys, other value'],
       bounds='two records with content {k, one custom one-byte key} and values of 1..=3 bytes'),
     # ---- family U: one update step from an arbitrary valid pre-state (C05-C10, C14, C03) --------
-    H('u_set_tcp4', 'harness', ['C05', 'C06', 'C07', 'C08', 'C09', 'C10', 'C14', 'C03'], variant='m24', unwind=8,
-      mem_gb=24, timeout=2400, covers=['update Ok', 'Err(ExceedsMaxSize)', 'Err(SequenceNumberTooHigh)', 'Err(SigningError)', 're-keyed'],
-      bounds='pre-state {id,k}, any seq, any valid signature of 3..=6 bytes; set_tcp4(any port) with any signer (same/other key, may fail, sig 3..=6 bytes); MAX_ENR_SIZE scaled to 24'),
-    H('zp_a', 'harness', ['Z00'], variant='m24', unwind=8, mem_gb=16, timeout=2400),
-    H('zp_b', 'harness', ['Z00'], variant='m24', unwind=8, mem_gb=16, timeout=2400),
-    H('zp_c', 'harness', ['Z00'], variant='m24', unwind=8, mem_gb=16, timeout=2400),
+    H('u_set_tcp4', 'harness', ['C05', 'C06', 'C07', 'C08', 'C09', 'C10', 'C14', 'C03'], variant='m32', unwind=8, mem_gb=14, timeout=2400, covers=['update Ok', 'Err(ExceedsMaxSize)', 'Err(SequenceNumberTooHigh)', 'Err(SigningError)', 're-keyed'],
+      bounds='pre-state {id,k}; set_tcp4(any port); any seq, valid signature of 3..=6 bytes, any signer (same/other key, may fail, sig 3..=6 bytes); MAX_ENR_SIZE scaled to 32'),
+    H('u_insert_raw', 'harness', ['C05', 'C06', 'C07', 'C08', 'C09', 'C10', 'C14', 'C03'] + ['C04'], variant='m32', unwind=8, mem_gb=14, timeout=2400,
+      covers=['update Ok', 'Err(SequenceNumberTooHigh)', 'Err(SigningError)', 're-keyed'] + ['Err(InvalidRlpData)', 'three-byte raw value stored'],
+      bounds='pre-state {id,k}; insert_raw_rlp("x", any 0..=3 bytes incl. malformed); any seq, valid signature of 3..=6 bytes, any signer (same/other key, may fail, sig 3..=6 bytes); MAX_ENR_SIZE scaled to 32'),
+    H('u_replace_tcp4', 'harness', ['C05', 'C06', 'C07', 'C08', 'C09', 'C10', 'C14', 'C03'], variant='m32', unwind=8, mem_gb=14, timeout=2400, covers=['update Ok', 'Err(ExceedsMaxSize)', 'Err(SequenceNumberTooHigh)', 'Err(SigningError)', 're-keyed'],
+      bounds='pre-state {id,k,tcp:any port}; set_tcp4(any port); any seq, valid signature of 3..=6 bytes, any signer (same/other key, may fail, sig 3..=6 bytes); MAX_ENR_SIZE scaled to 32'),
+    H('u_set_seq', 'harness', ['C05', 'C06', 'C07', 'C08', 'C09', 'C10', 'C14', 'C03'], variant='m32', unwind=8, mem_gb=14, timeout=2400,
+      covers=['update Ok', 'Err(ExceedsMaxSize)', 'Err(SigningError)', 're-keyed'] + ['set to 2^64-1', 'set to a smaller number'],
+      bounds='pre-state {id,k,tcp}; set_seq(any u64); any seq, valid signature of 3..=6 bytes, any signer (same/other key, may fail, sig 3..=6 bytes); MAX_ENR_SIZE scaled to 32'),
+    H('u_remove_key', 'harness', ['C05', 'C06', 'C07', 'C08', 'C09', 'C10', 'C14', 'C03'], variant='m32', unwind=8, mem_gb=14, timeout=2400, covers=['update Ok', 'Err(SequenceNumberTooHigh)', 'Err(SigningError)', 're-keyed'],
+      bounds='pre-state {id,k,tcp}; remove_key("tcp"); any seq, valid signature of 3..=6 bytes, any signer (same/other key, may fail, sig 3..=6 bytes); MAX_ENR_SIZE scaled to 32'),
+    H('u_set_udp_socket4', 'harness', ['C05', 'C06', 'C07', 'C08', 'C09', 'C10', 'C14', 'C03'], variant='m32', unwind=8, mem_gb=14, timeout=2400, covers=['update Ok', 'Err(ExceedsMaxSize)', 'Err(SigningError)', 're-keyed'],
+      bounds='pre-state {id,k} with seq < 2^32 (keeps every candidate encoding within the 40-byte buffers); set_udp_socket(any IPv4 address, any port); any seq, valid signature of 3..=6 bytes, any signer (same/other key, may fail, sig 3..=6 bytes); MAX_ENR_SIZE scaled to 32'),
+    H('u_remove_insert', 'harness', ['C05', 'C06', 'C07', 'C08', 'C09', 'C10', 'C14', 'C03'], variant='m32', unwind=8, mem_gb=14, timeout=2400,
+      covers=['update Ok', 'Err(ExceedsMaxSize)', 'Err(SequenceNumberTooHigh)', 'Err(SigningError)', 're-keyed'] + ['Err(InvalidRlpData)', 'two-byte port inserted'],
+      bounds='pre-state {id,k,tcp}; remove_insert([tcp],[(udp, any payload of 0..=2 bytes)]); any seq, valid signature of 3..=6 bytes, any signer (same/other key, may fail, sig 3..=6 bytes); MAX_ENR_SIZE scaled to 32'),
+    H('u_set_public_key', 'harness', ['C05', 'C06', 'C07', 'C08', 'C09', 'C10', 'C14', 'C03'], variant='m32', unwind=8, mem_gb=14, timeout=2400,
+      covers=['update Ok', 'Err(SequenceNumberTooHigh)', 'Err(SigningError)', 're-keyed'] + ["set to the signer's own key"],
+      bounds='pre-state {id,k}; set_public_key(any key of the scheme); any seq, valid signature of 3..=6 bytes, any signer (same/other key, may fail, sig 3..=6 bytes); MAX_ENR_SIZE scaled to 32'),
 ]
 
 BY_NAME = {h.name: h for h in HARNESSES}
